@@ -152,11 +152,13 @@ def _merge_dg(chain):
                 return (), None
             if len(p) == 1:
                 ((ps, pc), pk), = p
+                if not pc:
+                    s = _merge_s(s, ps)
+                    k = k * pk
+                    continue  # dg(scalar) = scalar * eye
                 if ps or pk != 1:
                     s = _merge_s(s, ps)
                     k = k * pk
-                    if not pc:
-                        continue  # dg(scalar) = scalar * eye
                     x = A("dg", frozenset([((EMPTY_S, pc), ONE)]))
         res.append(x)
     if not res and out:
